@@ -40,6 +40,8 @@ reg("C09", "proof", ASM, ["gbasis.base_one.BaseOneIndex.construct_array_{cartesi
 
 DISP = ["contracts.dispatch:Dispatch", "contracts.dispatch:DispatchAsymm", "contracts.dispatch:ConventionInline"]
 CHECKS["C09"].harnesses += DISP
+# routines above the integral / evaluation layer that take `transform` themselves: it must reach every basis index there too
+CHECKS["C09"].harnesses += ["contracts.density:DerivDensity", "contracts.density:GradLapHess", "contracts.density:KineticDensity", "contracts.stress:StressInline"]
 
 reg("C02", "proof", ["contracts.moment_int:MomentIntermediate", "contracts.overlap:Cleanup", "contracts.diffop:DiffIntermediate",
     "contracts.diffop:ComposeDiff", "contracts.diffop:KineticBlock", "contracts.symmetry:BlockOrientation", "contracts.assembly:TwoSymm",
